@@ -29,6 +29,8 @@ package atree
 //@ pred refIn(st Storable) = st != nil && is(st, ContainerStorable) && hasRef(st)
 
 //@ iface ContainerStorable.HasPointer() (r)
+//@   conform all
+//@   serves C07
 //@   ensures r == hasRef(recv)
 //@   pure
 
@@ -41,10 +43,14 @@ package atree
 //@   pure
 
 //@ iface element.hasPointer() (r)
+//@   conform all
+//@   serves C07
 //@   ensures r == eref(recv)
 //@   pure
 
 //@ iface elements.hasPointer() (r)
+//@   conform all
+//@   serves C07
 //@   ensures r == esref(recv)
 //@   pure
 
